@@ -13,6 +13,7 @@ mod scen_aut;
 mod scen_build;
 mod scen_cli;
 mod scen_file;
+mod scen_graph;
 mod scen_lev;
 mod scen_mem;
 mod scen_merge;
@@ -95,6 +96,17 @@ fn record(args: &Args) {
         "cli" => {
             let mut log = Log::create(&out);
             scen_cli::cli(&mut log, seed, &tier, &args.get("fst-bin", "fst"), &args.get("work", "/verif/work/C19/cli"));
+            let (n, counts) = log.finish();
+            println!("{}", json!({"scenario": scen, "events": n, "counts": counts, "panics": 0}));
+        }
+        "graph" => {
+            let mut log = Log::create(&out);
+            let files = args.get("files", "");
+            if files.is_empty() {
+                scen_graph::graph(&mut log, seed, &tier, &args.get("fst-bin", "fst"), &args.get("work", "/verif/work/C19/graph"));
+            } else {
+                scen_graph::graph_files(&mut log, &files, seed, &tier, &args.get("fst-bin", "fst"), &args.get("work", "/verif/work/C10/graph"));
+            }
             let (n, counts) = log.finish();
             println!("{}", json!({"scenario": scen, "events": n, "counts": counts, "panics": 0}));
         }
